@@ -161,6 +161,9 @@ def define_blockshape_3d(bits_per_voxel, blockshape, n_dims=3):
     if sum([1 for n in list(blockshape) + [bits_per_voxel] if n == -1]) > 1:
         raise ValueError("Blockshape is underdefined")
 
+    # Dimensions may arrive as NumPy integers of any width; sizes are computed with Python integers
+    blockshape = tuple(int(n) if n == int(n) else n for n in blockshape)
+
     if isinstance(bits_per_voxel, str):
         bits_per_voxel = float(bits_per_voxel)
 
